@@ -152,6 +152,18 @@ CHECKS = {
         "(quiescence of a deterministic loop).",
         "5/C09",
     ),
+    "C04": (
+        "exploration",
+        "exhaustive code-point enumeration + property-based sequences: every Unicode code point in every header/start-line "
+        "position of the shared serialiser; special code points and random strings through the public client/server/"
+        "multipart/FormData APIs onto capturing transports with an independent CRLF splitter; Hypothesis-generated "
+        "StreamWriter call sequences decoded by an independent de-chunker/inflater; Payload.size vs bytes written",
+        "A refused string must leave zero bytes on the wire; an accepted one must produce exactly the supplied lines. "
+        "Emitted bodies must agree with their framing (one chunk terminator, declared length == bytes, size == bytes).",
+        "Trusts the independent splitter/de-chunker in the check; the C serialiser is out of reach; multipart writers are "
+        "driven the way real callers do (size consulted before write).",
+        "5/C04",
+    ),
 }
 
 REASON_PENDING = "check not built yet in this round (design in DESIGN.md section 5); not claimed until it runs quietly on the unchanged tree"
